@@ -31,18 +31,21 @@ NSNAME = {1: "root/v1", 2: "root/v2"}
 CLASSNAME = {"N": "Vn_Node", "NS": "Vn_NodeSub", "NSS": "Vn_NodeSubSub",
              "M": "Vm_Mate", "AB": "Va_Link", "ABS": "Va_LinkSub",
              "ABSS": "Va_LinkSubSub", "AT": "Va_Triple", "AL": "Va_Loose",
-             "ZZ": "Vz_Missing"}
+             "ABX": "Va_LinkX", "ZZ": "Vz_Missing"}
 TOKEN_OF_CLASS = {v.lower(): k for k, v in CLASSNAME.items() if k != "ZZ"}
 ROLENAME = {"r1": "Antecedent", "r2": "Dependent", "a": "First",
             "b": "Second", "c": "Third", "zz": "NoSuchRole"}
 ROLES = {"AB": ["r1", "r2"], "ABS": ["r1", "r2"], "ABSS": ["r1", "r2"],
-         "AL": ["r1", "r2"], "AT": ["a", "b", "c"]}
+         "AL": ["r1", "r2"], "AT": ["a", "b", "c"], "ABX": ["r1", "r2"]}
 REFCLASS = {"AB": ["N", "M"], "ABS": ["N", "M"], "ABSS": ["N", "M"],
-            "AL": ["N", "M"], "AT": ["N", "N", "M"]}
+            "AL": ["N", "M"], "AT": ["N", "N", "M"], "ABX": ["N", "M"]}
 SUBTREE = {"N": ["N", "NS", "NSS"], "NS": ["NS", "NSS"], "NSS": ["NSS"],
            "M": ["M"]}
 NODE_CLASSES = ("N", "NS", "NSS", "M")
-ASSOC_CLASSES = ("AB", "ABS", "ABSS", "AT", "AL")
+ASSOC_CLASSES = ("AB", "ABS", "ABSS", "AT", "AL", "ABX")
+# classes of the fixed schema; ABX (Va_LinkX) is added to a namespace by an
+# "addclass" operation of the history (spec/AssocImpl.tla AddClass)
+FIXED_ASSOC_CLASSES = ("AB", "ABS", "ABSS", "AT", "AL")
 
 SCHEMA = """
 class Vn_Node { [Key] uint32 Id; [Key] string Tag; string s; };
@@ -201,11 +204,20 @@ def _mof_str(s):
     return '"' + s.replace("\\", "\\\\").replace('"', '\\"') + '"'
 
 
-def build(rng, nodes, creates, mode, use_pull):
+def build(rng, nodes, creates, mode, use_pull, upto=None, state=None):
     """nodes: list of dict(ns, cls) (index = position + 1);
-    creates: list of dict(cls, ends, ns) in call order.
+    creates: list of operations in call order: dict(op, cls, ends, ns ...)
+    with op = "create" (default; CreateInstance of an association instance),
+    "reject" (CreateInstance that collides with the instance made by
+    creates[target]: same keys, for Va_Loose the same Id with other ends;
+    expected to be refused), "modify", "addclass" (Va_LinkX as subclass of
+    `parent` in namespace ns, through CreateClass or add_cimobjects).
     mode: "create" (CreateInstance) | "mof" (compile_mof_string).
-    Returns (conn, log) ; log = readable list of what was done."""
+    upto / state: build in steps (operations [state.pos, upto)), so that the
+    repository can be traversed between two write operations.
+    Returns (conn, log, state) ; log = readable list of what was done."""
+    if state is not None:
+        return _build_ops(rng, nodes, creates, mode, state, upto)
     conn = fresh_conn(use_pull)
     log = []
     if mode == "mof":
@@ -234,12 +246,41 @@ def build(rng, nodes, creates, mode, use_pull):
                                            for k, v in props])
             conn.CreateInstance(inst, namespace=NSNAME[n["ns"]])
         log.append("CreateInstance x %d node instances" % len(nodes))
-    alid = 0
-    made = {}          # position of the create in `creates` -> instance path
-    nmod = {}
-    for pos, c in enumerate(creates):
-        if c.get("op", "create") == "modify":
+    state = {"conn": conn, "log": log, "alid": 0, "made": {}, "nmod": {},
+             "alids": {}, "pos": 0, "rejected": 0, "notrejected": 0}
+    return _build_ops(rng, nodes, creates, mode, state, upto)
+
+
+def _add_class(rng, conn, log, c):
+    """Va_LinkX as subclass of Va_Link / Va_LinkSub in ONE namespace"""
+    parent = CLASSNAME[c["parent"]]
+    ns = NSNAME[c["ns"]]
+    how = c.get("how") or rng.choice(("CreateClass", "add_cimobjects"))
+    log.append("%s(ns=%s): Va_LinkX : %s" % (how, ns, parent))
+    if how == "CreateClass":
+        conn.compile_mof_string(
+            "[Association] class Va_LinkX : %s { uint8 x; };" %
+            maybe_recase(rng, parent, 0.3), namespace=ns)
+    else:
+        conn.add_cimobjects(pywbem.CIMClass(
+            "Va_LinkX", superclass=parent,
+            qualifiers=[pywbem.CIMQualifier("Association", True)],
+            properties=[CIMProperty("x", None, type="uint8")]), namespace=ns)
+
+
+def _build_ops(rng, nodes, creates, mode, state, upto):
+    conn, log = state["conn"], state["log"]
+    made = state["made"]     # position of the create in `creates` -> path
+    nmod = state["nmod"]
+    upto = len(creates) if upto is None else upto
+    for pos in range(state["pos"], upto):
+        c = creates[pos]
+        kind = c.get("op", "create")
+        if kind == "modify":
             _modify(rng, conn, log, made, nmod, c)
+            continue
+        if kind == "addclass":
+            _add_class(rng, conn, log, c)
             continue
         roles = ROLES[c["cls"]]
         ends = []
@@ -255,14 +296,22 @@ def build(rng, nodes, creates, mode, use_pull):
                 ends.append((ROLENAME[r], p))
         extra = []
         if c["cls"] == "AL":
-            alid += 1
+            if kind == "reject":
+                alid = state["alids"][c["target"]]     # the stored one's Id
+            else:
+                state["alid"] += 1
+                alid = state["alids"][pos] = state["alid"]
             extra.append(("Id", Uint32(alid)))
         made[pos] = CIMInstanceName(
             CLASSNAME[c["cls"]], namespace=NSNAME[c["ns"]],
             keybindings=extra if c["cls"] == "AL" else
             [(k, q.copy()) for k, q in ends])
         cn = maybe_recase(rng, CLASSNAME[c["cls"]], 0.3)
-        if mode == "mof":
+        if kind == "reject":
+            del made[pos]
+        # (a duplicate in MOF would be turned into ModifyInstance by the MOF
+        # compiler: rejected creates always go through CreateInstance)
+        if mode == "mof" and kind != "reject":
             body = []
             for k, v in extra:
                 body.append("%s = %d;" % (k, v))
@@ -295,9 +344,15 @@ def build(rng, nodes, creates, mode, use_pull):
                 ", ".join("%s=%s" % (p.name, p.value) for p in props)))
             try:
                 conn.CreateInstance(inst, namespace=NSNAME[c["ns"]])
+                if kind == "reject":
+                    state["notrejected"] += 1
+                    log.append("  -> accepted (a collision was expected)")
             except pywbem.Error as exc:
                 log.append("  -> %s" % exc)
-    return conn, log
+                if kind == "reject":
+                    state["rejected"] += 1
+    state["pos"] = upto
+    return conn, log, state
 
 
 def _modify(rng, conn, log, made, nmod, c):
@@ -403,6 +458,16 @@ class Stored:
             q.host = None
             self.node_paths.append(q)
         self.nstored = len(self.nodes)
+        # place of Va_LinkX in the class hierarchy of each namespace
+        self.xpar = []
+        for nsid in (1, 2):
+            cs = repo.get_class_store(NSNAME[nsid])
+            sup = ""
+            if cs.object_exists(CLASSNAME["ABX"]):
+                sc = cs.get(CLASSNAME["ABX"]).superclass
+                sup = TOKEN_OF_CLASS.get((sc or "").lower(),
+                                         "UNCLASSIFIED:%s" % sc)
+            self.xpar.append(sup)
         self.assocs = []
         self.assoc_index = {}
         groups = {}
@@ -415,7 +480,9 @@ class Stored:
             # pns: the namespace the stored object's own path states
             pns = _NSID.get((inst.path.namespace or "").strip("/").lower(), 0)
             self.assocs.append({"cls": tok, "ends": ends, "ns": nsid, "g": g,
-                                "w": _wv(inst), "pns": pns})
+                                "w": _wv(inst), "pns": pns,
+                                "xp": self.xpar[nsid - 1] if tok == "ABX"
+                                else ""})
             self.assoc_index[k] = len(self.assocs)
 
     def ends_of(self, tok, inst, add_phantoms=False):
@@ -620,10 +687,22 @@ def spell(rng, token, table, cased):
     return recase(rng, name) if cased else name
 
 
-def filter_lists(rng, full):
+def filter_lists(rng, full, hier=False):
     """Token lists (first entry "" = not given) with a parallel list of
     concrete spellings.  Every list has an existing, a differently-cased
-    existing and a non-existing name; `full`: every name of the schema."""
+    existing and a non-existing name; `full`: every name of the schema;
+    `hier`: histories that change the class hierarchy (Va_LinkX): the
+    association class filters name Va_LinkX and both its possible
+    superclasses."""
+    if hier:
+        acs = ["", "AB", "ABS", "ABX", rng.choice(("AB", "ABS", "ABX")), "ZZ"]
+        acn = [spell(rng, t, CLASSNAME, i == 4) for i, t in enumerate(acs)]
+        rcs = ["", "N", "M"]
+        rcn = [spell(rng, t, CLASSNAME, False) for t in rcs]
+        rls = ["", "r1", "r2"]
+        rln = [spell(rng, t, ROLENAME, i == 2) for i, t in enumerate(rls)]
+        return {"acs": acs, "rcs": rcs, "rls": rls,
+                "acn": acn, "rcn": rcn, "rln": rln}
     def mk(existing, bad, table, extra_bad=()):
         if full:
             toks = [""] + list(existing)
@@ -644,7 +723,7 @@ def filter_lists(rng, full):
                 cased.append(rng.random() < 0.5)
         names = [spell(rng, t, table, c) for t, c in zip(toks, cased)]
         return toks, names
-    acs, acn = mk(ASSOC_CLASSES, "ZZ", CLASSNAME, extra_bad=("N", "M"))
+    acs, acn = mk(FIXED_ASSOC_CLASSES, "ZZ", CLASSNAME, extra_bad=("N", "M"))
     rcs, rcn = mk(NODE_CLASSES, "ZZ", CLASSNAME, extra_bad=("AB",))
     rls, rln = mk(("r1", "r2", "a", "b", "c"), "zz", ROLENAME)
     return {"acs": acs, "rcs": rcs, "rls": rls,
@@ -662,14 +741,36 @@ def run_job(job):
     repository and filter lists in every slice): slice k queries the sources
     x with x % n == k; the class-level sources belong to slice 0."""
     rng = random.Random(job["seed"])
-    conn, log = build(rng, job["nodes"], job["creates"], job["mode"],
-                      job["use_pull"])
-    stored = Stored(conn)
-    fl = job.get("lists") or filter_lists(rng, job["full"])
+    # cuts: positions in the operation list BEFORE which the repository is
+    # traversed (all sources, all filter tuples); the traversal after the
+    # last operation is always made.  Event "graph" / "regraph" = the
+    # repository as it is stored at that moment.
+    cuts = sorted(set(job.get("cuts") or ())) + [len(job["creates"])]
+    conn, log, state = build(rng, job["nodes"], job["creates"], job["mode"],
+                             job["use_pull"], upto=cuts[0])
+    fl = job.get("lists") or filter_lists(rng, job["full"],
+                                          hier=job.get("hier", False))
+    trace = []
+    ncalls = 0
+    stored = None
+    for n, cut in enumerate(cuts):
+        if n:
+            build(rng, job["nodes"], job["creates"], job["mode"],
+                  job["use_pull"], upto=cut, state=state)
+        stored = Stored(conn)
+        ncalls += _traverse(rng, job, conn, stored, fl, trace,
+                            "regraph" if n else "graph")
+    return {"trace": trace, "log": log, "lists": fl, "ncalls": ncalls,
+            "nnodes": len(stored.nodes), "nassocs": len(stored.assocs),
+            "rejected": state["rejected"],
+            "notrejected": state["notrejected"]}
+
+
+def _traverse(rng, job, conn, stored, fl, trace, gop):
     acs, rcs, rls = fl["acs"], fl["rcs"], fl["rls"]
     acn, rcn, rln = fl["acn"], fl["rcn"], fl["rln"]
-    trace = [{"op": "graph", "nodes": stored.nodes, "assocs": stored.assocs,
-              "acs": acs, "rcs": rcs, "rls": rls}]
+    trace.append({"op": gop, "nodes": stored.nodes, "assocs": stored.assocs,
+                  "xpar": stored.xpar, "acs": acs, "rcs": rcs, "rls": rls})
     p_extra = job["p_extra"]
     ncalls = 0
     part_k, part_n = job.get("part") or (0, 1)
@@ -683,7 +784,8 @@ def run_job(job):
         return s
 
     # class-level sources
-    for ctok in (job.get("classes", ()) if part_k == 0 else ()):
+    for ctok in (job.get("classes", ()) if part_k == 0 and gop == "graph"
+                 else ()):
         exact = rng.random() < 0.6
         cname = CLASSNAME[ctok] if exact else recase(rng, CLASSNAME[ctok])
         nsid = rng.choice((1, 2))
@@ -749,8 +851,7 @@ def run_job(job):
                     if t in sl else SKIP for t in range(1, 7)]})
                 ncalls += len(sl)
         trace.append({"op": "src", "x": x, "aq": aq, "rq": rq})
-    return {"trace": trace, "log": log, "lists": fl, "ncalls": ncalls,
-            "nnodes": len(stored.nodes), "nassocs": len(stored.assocs)}
+    return ncalls
 
 
 # ----------------------------------------------------------------------------
@@ -800,6 +901,21 @@ def random_graph(rng, nnodes, nassoc):
         creates.append({"op": "create", "cls": cls, "ends": ends,
                         "ns": rng.choice((1, 1, 2))})
     ops = list(creates)
+    # rejected creates (spec/AssocImpl.tla Reject): the keys of a stored
+    # instance again - for Va_Loose its Id with any other ends - in a
+    # namespace where the call collides with a stored copy
+    def homes(c, ns):
+        return {ns} | {nodes[e - 1]["ns"] for e in c["ends"] if e}
+    for _ in range(rng.choice((0, 1, 2, 3))):
+        pos = rng.randrange(len(creates))
+        t = creates[pos]
+        ends = list(t["ends"])
+        if t["cls"] == "AL":
+            ends = [rng.choice(ns_ + [0]), rng.choice(ms_ + [0])]
+        ns = rng.choice((1, 2))
+        if homes({"ends": ends}, ns) & homes(t, t["ns"]):
+            ops.append({"op": "reject", "cls": t["cls"], "ends": ends,
+                        "ns": ns, "target": pos})
     for pos, c in enumerate(creates):
         if rng.random() < 0.2:
             homes = sorted({c["ns"]} | {nodes[e - 1]["ns"]
